@@ -298,6 +298,11 @@ impl DebuggerContext {
             );
 
             let result = vm.parse(&rule, &input);
+            // A run that was cancelled by a restart must not report its outcome: the controller
+            // is waiting in `join` and no longer receives, so a send on a full channel never returns.
+            if is_done.load(Ordering::SeqCst) {
+                return;
+            }
             #[cfg(pest_parser_pest_verif)]
             verif::point("parser.finish_send");
             match result {
